@@ -114,7 +114,7 @@ PROPS['C17'] = dict(
 )
 
 PROPS['C07'] = dict(
-    theorems=['match_spec', 'retained_last_write', 'get_exactly_matching', 'get_once_per_topic', 'retained_replicates'],
+    theorems=['match_spec', 'retained_last_write', 'get_exactly_matching', 'get_once_per_topic', 'retained_replicates', 'subscribe_replays_exactly'],
     families=[dict(name='tries', corr='Tries', runs=[('x07', 1, 1), ('rtop', 300, 5000)]),
               dict(name='crdt', corr='DState', runs=[('retained', 250, 4000)]),
               dict(name='broker', corr='Broker', runs=[('retained', 32, 400)], par=8)],
